@@ -60,6 +60,36 @@ def cases(tier, seed):
             ufo["lib"] = {"public.postscriptNames": {a_: b_ for a_, b_ in zip(rot, rot[1:] + rot[:1])}}
             case["rename"] = True
         out.append(case)
+    # SMOOTH quadratic splines (a circle converted from cubic arcs with cu2qu, control points on the quarter-unit grid, two or
+    # more off-curve points per arc): a curve fitter could merge them, the compiler may not -- every optimisation level
+    # draws each quadratic piece as its exact cubic
+    from fontTools.cu2qu import curve_to_quadratic
+
+    rng7 = random.Random(seed * 49979687 + 120012)
+    P = 1024
+    for k in range(3 if tier == "quick" else 30):
+        glyphs = {}
+        for gi, nm in enumerate(["o", "c"][: 1 + k % 2] + ["l"]):
+            if nm == "l":
+                glyphs[nm] = {"cs": [[[0, 0, "line"], [80 * P, 0, "line"], [80 * P, 700 * P, "line"], [0, 700 * P, "line"]]], "comps": [], "anchors": [],
+                              "w": 200 * P, "h": 0, "u": [0x6C]}
+                continue
+            r = rng7.randint(150, 300)
+            cx, cy = rng7.randint(250, 350), rng7.randint(250, 350)
+            kq = 0.5523 * r
+            arcs = [((cx + r, cy), (cx + r, cy + kq), (cx + kq, cy + r), (cx, cy + r)), ((cx, cy + r), (cx - kq, cy + r), (cx - r, cy + kq), (cx - r, cy)),
+                    ((cx - r, cy), (cx - r, cy - kq), (cx - kq, cy - r), (cx, cy - r)), ((cx, cy - r), (cx + kq, cy - r), (cx + r, cy - kq), (cx + r, cy))]
+            pts = [[int(cx + r) * P, int(cy) * P, "qcurve"]]
+            for ai, arc in enumerate(arcs):
+                q = curve_to_quadratic(arc, 0.3 if gi == 0 else 0.1)
+                for (x, y) in q[1:-1]:
+                    pts.append([int(round(x * 4)) * P // 4, int(round(y * 4)) * P // 4, "off"])
+                if ai < 3:
+                    pts.append([int(round(q[-1][0])) * P, int(round(q[-1][1])) * P, "qcurve"])
+            glyphs[nm] = {"cs": [pts], "comps": [], "anchors": [], "w": (2 * cx) * P, "h": 0, "u": [0x6F + gi]}
+        out.append({"cid": f"c12-{seed}-sq{k}", "lib": rng7.choice(["ufoLib2", "defcon"]),
+                    "ufo": {"glyphs": glyphs, "info": {"unitsPerEm": 1000, "ascender": 800, "descender": -200},
+                            "kerning": [["l", "o", -40]], "kernScale": 1}})
     # designspace paths: masters must stay unspecialised whatever level is asked for, the variable font is optimised as a whole
     for k in range(8 if tier == "quick" else 100):
         base = gen.glyphset(rng, nmin=3, nmax=6, max_depth=2, kinds=["line", "cubic", "mixed"], unicodes=True)
